@@ -13,6 +13,8 @@ var checks = map[string]func(*engine.Report){
 	"C02": engine.CheckC02,
 	"C07": engine.CheckC07,
 	"C10": engine.CheckC10,
+	"C11": engine.CheckC11,
+	"C12": engine.CheckC12,
 	"C03": engine.CheckC03,
 	"C04": engine.CheckC04,
 	"C05": engine.CheckC05,
